@@ -1,6 +1,7 @@
 package main
 
 import (
+	"verif/shim/vclock"
 	"context"
 	"crypto"
 	"crypto/hmac"
@@ -129,7 +130,7 @@ func c02Ctx() (context.Context, *protocol.Tunnel) {
 func c02Cases(env *Env, rep *Report) []c02Case {
 	security.SigningKey = []byte(c02Key)
 	ctx, _ := c02Ctx()
-	t0 := time.Now()
+	t0 := vclock.Now()
 	valid, err := security.GeneratePAAToken(ctx, "alice", hostA+":3389")
 	if err != nil {
 		infra("GeneratePAAToken: %v", err)
@@ -210,7 +211,7 @@ func c02Cases(env *Env, rep *Report) []c02Case {
 	add("resign", "crit-header-right-key", jwsCompact(`{"alg":"HS256","crit":["exp"],"exp":1}`, payload, "HS256", key), "honour")
 	add("resign", "b64-false-right-key", jwsCompact(`{"alg":"HS256","b64":false,"crit":["b64"]}`, payload, "HS256", key), "honour")
 	// (6) claims signed with the right key
-	now := time.Now()
+	now := vclock.Now()
 	times := map[string]any{"absent": nil, "now-1h": now.Add(-time.Hour).Unix(), "now-70s": now.Add(-70 * time.Second).Unix(), "now-50s": now.Add(-50 * time.Second).Unix(),
 		"now": now.Unix(), "now+50s": now.Add(50 * time.Second).Unix(), "now+70s": now.Add(70 * time.Second).Unix(), "now+1h": now.Add(time.Hour).Unix()}
 	mk := func(iss any, exp, nbf, iat any, at string) string {
@@ -315,7 +316,7 @@ func c02(env *Env, rep *Report) {
 		ck, _ := env.Replay["cookie"].(string)
 		idp, _ := env.Replay["idp"].(string)
 		c := c02Case{Cookie: ck, IdP: idp}
-		c.Expect, _ = c02Classify(ck, idp, []byte(c02Key), time.Now())
+		c.Expect, _ = c02Classify(ck, idp, []byte(c02Key), vclock.Now())
 		ok, pan := c02Direct(c)
 		st, ans, ended, pan2, next := c02Proc(c, rep)
 		fmt.Printf("expect=%s direct accepted=%v panic=%q; processor status=%#x answered=%v ended=%v next-answered=%v panic=%q\n", c.Expect, ok, pan, st, ans, ended, next, pan2)
@@ -346,7 +347,7 @@ func c02(env *Env, rep *Report) {
 		rep.add("executions", 1)
 		ok, pan := c02Direct(c)
 		rep.outcome(fmt.Sprintf("%s expect=%s accepted=%v", c.Class, c.Expect, ok))
-		_, why := c02Classify(c.Cookie, c.IdP, []byte(c02Key), time.Now())
+		_, why := c02Classify(c.Cookie, c.IdP, []byte(c02Key), vclock.Now())
 		if pan != "" {
 			rep.violate("C02/panic/"+c.Class, fmt.Sprintf("%s %s: %s", c.Class, c.Name, pan), rp)
 		}
@@ -414,6 +415,30 @@ func c02(env *Env, rep *Report) {
 				}
 				rep.outcome(fmt.Sprintf("history %v via %s -> %v", seq, via, got))
 			}
+		}
+	}
+	// the clock moves on (the security package's time.Now follows the harness clock)
+	if env.Shard == 0 {
+		vclock.Reset()
+		ctx, _ := c02Ctx()
+		t0, _ := security.GeneratePAAToken(ctx, "alice", hostA+":3389")
+		acc := func(tok string) bool { ok, _ := c02Direct(c02Case{Cookie: tok, IdP: "honour"}); return ok }
+		var got []bool
+		got = append(got, acc(t0))
+		vclock.Advance(4 * time.Minute)
+		got = append(got, acc(t0))
+		vclock.Advance(3 * time.Minute)
+		got = append(got, acc(t0))
+		t1, _ := security.GeneratePAAToken(ctx, "alice", hostA+":3389")
+		got = append(got, acc(t1))
+		vclock.Advance(20 * time.Minute)
+		got = append(got, acc(t1), acc(t0))
+		vclock.Reset()
+		distinct++
+		rep.add("executions", 6)
+		rep.outcome(fmt.Sprintf("clock history -> %v", got))
+		if fmt.Sprint(got) != "[true true false true false false]" {
+			rep.violate("C02/expiry-not-judged-against-the-current-time", fmt.Sprintf("cookie minted at t0 checked at t0, t0+4m, t0+7m, cookie minted at t0+7m checked then, both at t0+27m: accepted=%v, want [true true false true false false]", got), map[string]any{"noreplay": true})
 		}
 	}
 	for k, v := range counts {
